@@ -153,6 +153,8 @@ type Run struct {
 	unwinds    []string
 	samples    []interface{}
 	pending    []pendingAssert
+	replayVals []NondetVal // interpretive replay: nondets take these concrete values, in order
+	replayHit  string      // label of the assertion that evaluated to false concretely
 }
 
 type pendingAssert struct {
@@ -195,7 +197,7 @@ func (r *Run) noteUnwind(in *Interp, fr *frame) {
 }
 
 func (r *Run) addPC(in *Interp, c *Term) {
-	if c == nil || c.IsTrue() {
+	if c == nil || c.IsTrue() || r.replayVals != nil {
 		return
 	}
 	r.pc = append(r.pc, c)
@@ -214,6 +216,17 @@ func (r *Run) choose(in *Interp, conds []*Term, what string) int {
 		r.whats = append(r.whats, what)
 		r.addPC(in, conds[d.K])
 		return d.K
+	}
+	if r.replayVals != nil {
+		// interpretive replay past the recorded decisions: conditions are concrete, follow the true one
+		for i, c := range conds {
+			if c == nil || c.IsTrue() {
+				r.decisions = append(r.decisions, dec{K: i})
+				r.whats = append(r.whats, what)
+				return i
+			}
+		}
+		in.abort("stop", "replay: no concrete alternative at %s", what)
 	}
 	// new decision: find feasible alternatives
 	var feas []int
@@ -275,6 +288,9 @@ func (r *Run) concretise(in *Interp, t *Term, what string) uint64 {
 		r.addPC(in, in.tb.Eq(t, in.tb.Const(t.w, d.Val)))
 		return d.Val
 	}
+	if r.replayVals != nil {
+		in.abort("stop", "replay: symbolic value at %s", what)
+	}
 	var vals []uint64
 	var excl []*Term
 	r.flush(in)
@@ -318,6 +334,12 @@ func (r *Run) concretise(in *Interp, t *Term, what string) uint64 {
 
 func (r *Run) assume(in *Interp, c *Term, pos string) {
 	if c.IsTrue() {
+		return
+	}
+	if r.replayVals != nil {
+		if c.IsFalse() {
+			in.abort("assume", "replay: assumption false at %s", pos)
+		}
 		return
 	}
 	if !r.fresh() {
@@ -376,6 +398,13 @@ func (r *Run) mkViolation(in *Interp, kind, label, pos, msg string, m map[string
 }
 
 func (r *Run) assert(in *Interp, c *Term, label, pos string) {
+	if r.replayVals != nil {
+		if c.IsFalse() && r.replayHit == "" {
+			r.replayHit = label
+			in.abort("stop", "replayed assertion %s fails concretely", label)
+		}
+		return
+	}
 	if !r.fresh() {
 		return // decided by the ancestor run that explored this prefix
 	}
@@ -467,7 +496,7 @@ func (r *Run) flush(in *Interp) {
 func (r *Run) noteUncaughtPanic(in *Interp, t *Thread, p targetPanic) {}
 
 func (r *Run) noteDeadlock(in *Interp, what string) {
-	if !r.fresh() {
+	if !r.fresh() || r.replayVals != nil {
 		return
 	}
 	r.flush(in)
@@ -762,4 +791,46 @@ func (ex *Explorer) runOne(sv *Solver, prefix []dec) {
 		ex.stop = true
 		ex.cond.Broadcast()
 	}
+}
+
+// InterpReplay re-executes the harness along the counterexample's decision vector with the model's values
+// substituted for every nondeterministic input (no solver involved) and reports which assertion, if any,
+// evaluates to false concretely. This validates encoding, model extraction and schedule against the
+// executor's own semantics; it is the replay mode of concurrent counterexamples (replay-mode=interp).
+func InterpReplay(P *Program, job *Job, v *Violation) (string, bool) {
+	ex := &Explorer{P: P, job: job, start: time.Now()}
+	ex.cond = sync.NewCond(&ex.mu)
+	ex.res = &JobResult{Job: job, AssumePruned: map[string]int{}, Reached: map[string]int{}, Stubs: map[string]int{},
+		Funcs: map[string]string{}, Aborts: map[string]int{}, AbortMsgs: map[string]string{}, ByProc: map[string]int{}}
+	sv := &Solver{emitted: map[int]bool{}, ByProc: map[string]int{}}
+	r := &Run{job: job, ex: ex, prefix: v.Decisions, pruned: map[string]int{}, reached: map[string]int{}, stubs: map[string]int{}}
+	r.replayVals = v.Nondets
+	if r.replayVals == nil {
+		r.replayVals = []NondetVal{}
+	}
+	in := &Interp{P: P, tb: NewTB(), sv: sv, run: r, globals: map[*ssa.Global]*Cell{},
+		mutexes: map[*Cell]*mutexState{}, wgs: map[*Cell]*wgState{}, onces: map[*Cell]*onceState{}, conds: map[*Cell]*condState{},
+		pools: map[*Cell]*poolState{}, hashMemo: map[string]*Term{}, gobQueues: map[*Cell]*[]Value{},
+		strBuilders: map[*Cell]*strings.Builder{}, funcsSeen: map[*ssa.Function]bool{}, mapOrder: -1}
+	pkg := P.pkgs[job.Pkg]
+	fn := pkg.Func(job.Func)
+	body := &FuncV{name: "main", native: func(in *Interp, _ []Value) Value {
+		in.runInits()
+		in.callSSA(nil, 0, fn, nil, nil)
+		return nil
+	}}
+	main := in.newThread("main", body, nil)
+	main.isMain = true
+	in.resume(main)
+	in.sched.wg.Wait()
+	ab := r.abortV
+	switch v.Kind {
+	case "assert":
+		return "interp: assertion " + r.replayHit, r.replayHit == v.Label
+	case "panic":
+		return "interp: " + fmt.Sprint(ab), ab != nil && ab.kind == "panic"
+	case "deadlock":
+		return "interp: " + fmt.Sprint(ab), ab != nil && ab.kind == "deadlock"
+	}
+	return "interp: unsupported kind", false
 }
